@@ -1,14 +1,16 @@
-package c04
+package esmodel
 
-// preludeJS is the JS side of the lock-step harness: an object registry with
+// PreludeJS is the JS side of the lock-step harness: an object registry with
 // tags, value/descriptor/state renderers that mirror esmodel's, subject
 // factories, and an interpreter for esmodel.Op records.
-const preludeJS = `"use strict";
-var TAG = new Map(), OBJ = {}, NEXT = 1000, LOG = [], PARAMS = {};
+const PreludeJS = `"use strict";
+var TAG = new Map(), OBJ = Object.create(null), NEXT = 1000, LOG = [], PARAMS = Object.create(null);
+var O_dp = Object.defineProperty;
 var R_ownKeys = Reflect.ownKeys, R_gopd = Reflect.getOwnPropertyDescriptor, O_isExt = Object.isExtensible, O_gpo = Object.getPrototypeOf;
 var A_push = Array.prototype.push, A_join = Array.prototype.join, A_indexOf = Array.prototype.indexOf, J_str = JSON.stringify, M_get = Map.prototype.get, M_set = Map.prototype.set;
-function push(a, v) { a[a.length] = v; }
-function reg(o, tag) { M_set.call(TAG, o, tag); OBJ[tag] = o; return o; }
+// CreateDataProperty, so that the harness is immune to indexed properties the test puts on prototypes
+function push(a, v) { O_dp(a, a.length, {value: v, writable: true, enumerable: true, configurable: true}); }
+function reg(o, tag) { M_set.call(TAG, o, tag); O_dp(OBJ, tag, {value: o, writable: true, enumerable: true, configurable: true}); return o; }
 function tagOf(o) { var t = M_get.call(TAG, o); if (t === undefined) { t = NEXT++; reg(o, t); } return t; }
 var SYMS = [Symbol("s0"), Symbol("s1"), Symbol.iterator, Symbol.toStringTag, Symbol.toPrimitive, Symbol.hasInstance, Symbol.unscopables, Symbol.species, Symbol.isConcatSpreadable, Symbol.match, Symbol.replace, Symbol.search, Symbol.split, Symbol.asyncIterator, Symbol.matchAll];
 function symId(s) { for (var i = 0; i < SYMS.length; i++) { if (SYMS[i] === s) return i; } push(SYMS, s); return SYMS.length - 1; }
@@ -178,4 +180,40 @@ function doOp1(op) {
 }
 function doOpS(s) { return doOp(JSON.parse(s)); }
 function param(tag, i) { return dv(PARAMS[tag].get(i)); }
+function ra(x) {
+  if (!Array.isArray(x)) return dv(x);
+  var s = "[" + x.length + ":";
+  for (var i = 0; i < x.length; i++) { s += (i ? "," : "") + (Object.prototype.hasOwnProperty.call(x, i) ? dv(x[i]) : "hole"); }
+  return s + "]";
+}
+function mkCb(name, recv) {
+  var calls = 0;
+  switch (name) {
+  case "ident": return function(v) { return v; };
+  case "isnum": return function(v) { return typeof v === "number"; };
+  case "double": return function(v) { return typeof v === "number" ? v * 2 : v; };
+  case "shrink": return function(v) { if (++calls === 1) recv.length = 1; return v; };
+  case "grow": return function(v) { if (++calls === 1) Array.prototype.push.call(recv, 99); return true; };
+  case "throwAt2": return function(v, i) { if (i === 2) throw new RangeError("cb"); return v; };
+  }
+  throw new Error("unknown callback " + name);
+}
+var CBMETHODS = {map: 1, filter: 1, forEach: 1, some: 1, every: 1, find: 1, findIndex: 1, findLast: 1, findLastIndex: 1};
+function doMethodS(s) {
+  var m = JSON.parse(s);
+  try {
+    var o = OBJ[m.o], args = [], margs = m.args || [];
+    for (var i = 0; i < margs.length; i++) push(args, pv(margs[i]));
+    if (m.name === "spread") return ra([...o]);
+    if (CBMETHODS[m.name]) args[0] = mkCb(args[0], o);
+    var f = Array.prototype[m.name];
+    if (typeof f !== "function") return "unsupported";
+    var r = f.apply(o, args);
+    if (r === o) return dv(o);
+    return ra(r);
+  } catch (e) {
+    if (e !== null && typeof e === "object" && typeof e.constructor === "function") return "throw:" + e.constructor.name;
+    return "throw:" + dv(e);
+  }
+}
 `
